@@ -44,6 +44,9 @@ def gen_case(rng, big=False):
     nd = rng.randint(1, 4)
     nch = rng.choice([1, 1, 2, 3])
     data_in = [f'd{i}' for i in range(nd)]
+    case_pairs = rng.random() < 0.3          # names that differ only in case are different names (STIL and Verilog are case sensitive)
+    if case_pairs and nd >= 2:
+        data_in[0], data_in[1] = 'en', 'EN'
     inputs = data_in + ['clk', 'se'] + [f'si{k}' for k in range(nch)]
     ffs = []
     chains = []
@@ -52,8 +55,9 @@ def gen_case(rng, big=False):
         n = rng.randint(1, 12) if not (big and ch == 0) else rng.choice([130, 270])     # big: a scan chain longer than 127 / 255 cells
         cells = []
         for _ in range(n):
-            ffs.append({'name': f'f{k}_reg', 'kind': rng.choice(['DFF', 'SDFFX1', 'DFF_X1']), 'q': f'f{k}_reg', 'qn': None, 'd': None, 'ck': 'clk'})
-            cells.append(f'f{k}_reg')
+            fname = f'f{k}_reg' if not (case_pairs and k < 2) else ('r_reg', 'R_reg')[k]
+            ffs.append({'name': fname, 'kind': rng.choice(['DFF', 'SDFFX1', 'DFF_X1']), 'q': fname, 'qn': None, 'd': None, 'ck': 'clk'})
+            cells.append(fname)
             k += 1
         chains.append(cells)
     # interleave the creation order of flip-flops of different chains (row order != chain order)
